@@ -2,7 +2,8 @@
 //   event <hex msg>      -> ok | panic:<hex>
 //   flush                -> <hex message>,<hex message>,... (messages of the events written to disk since the last flush)
 //   status <hex msg>     -> <hex reported message> | panic:<hex>
-//   utf16 <hex content-type> <hex body> -> ok:<hex json>|err|panic:<hex>   (read_response_body through a local one-shot server)
+//   xmlesc <hex text|-> -> <hex escaped>|panic:<hex>
+//   utf16 <hex content-type> <hex body|-> [split offset] -> ok:<hex json>|err|panic:<hex>   (read_response_body through a local one-shot server)
 use super::util::*;
 use crate::shared_state::agent_status_wrapper::{AgentStatusModule, AgentStatusSharedState};
 use proxy_agent_shared::logger::LoggerLevel;
@@ -62,9 +63,19 @@ pub fn run() {
                         Err(e) => format!("panic:{}", hex(e.to_string().as_bytes())),
                     }
                 }
-                ["utf16", ct, body] => {
+                ["xmlesc", t] => {
+                    // helpers::xml_escape on any text (it runs on the telemetry reader task and in the provisioning deadline handler)
+                    let text = if *t == "-" { String::new() } else { unhex_str(t) };
+                    match guarded(move || crate::common::helpers::xml_escape(text)) {
+                        Ok(v) => hex(v.as_bytes()),
+                        Err(m) => format!("panic:{}", hex(m.as_bytes())),
+                    }
+                }
+                ["utf16", ct, body, rest @ ..] => {
                     let ct = unhex_str(ct);
-                    let body = unhex(body);
+                    let body = if *body == "-" { vec![] } else { unhex(body) };
+                    // optional: the offset at which the host's write is split (so that the first data frame is that short)
+                    let split: Option<usize> = rest.first().and_then(|x| x.parse().ok());
                     let listener = std::net::TcpListener::bind("127.0.0.1:0").unwrap();
                     let port = listener.local_addr().unwrap().port();
                     std::thread::spawn(move || {
@@ -74,7 +85,19 @@ pub fn run() {
                             let _ = s.read(&mut buf);
                             let head = format!("HTTP/1.1 200 OK\r\ncontent-type: {}\r\ncontent-length: {}\r\n\r\n", ct, body.len());
                             let _ = s.write_all(head.as_bytes());
-                            let _ = s.write_all(&body);
+                            match split {
+                                Some(k) if k < body.len() => {
+                                    let _ = s.flush();
+                                    std::thread::sleep(std::time::Duration::from_millis(15));
+                                    let _ = s.write_all(&body[..k]);
+                                    let _ = s.flush();
+                                    std::thread::sleep(std::time::Duration::from_millis(15));
+                                    let _ = s.write_all(&body[k..]);
+                                }
+                                _ => {
+                                    let _ = s.write_all(&body);
+                                }
+                            }
                         }
                     });
                     let h = tokio::spawn(async move {
